@@ -62,6 +62,14 @@ def run(ctx):
                     lines.append(f"c15.run {src} {rng.randrange(1, 10**6)} {rng.choice([1, 1, 2])}")
                     labels.append(f"{t}/{v}")
     out = C.run_lines_parallel(ctx.harness, lines, timeout=6000)
+    # a stage that dies for lack of memory or time on a loaded machine is not a finding; findings are deterministic: every
+    # line with a failed stage is run a second time, a few at a time, and only what fails again is kept
+    redo = [i for i, o in enumerate(out) if o.startswith("refs=") and any(
+        (st + "=") in o and not (st + "=ok") in o and not (st + "=load-rc") in o for st in ("query", "copy", "saveraw", "savedefault"))]
+    if redo:
+        again = C.run_lines_parallel(ctx.harness, [lines[i] for i in redo], chunk=max(1, len(redo) // 4 + 1), timeout=6000)
+        for i, o in zip(redo, again):
+            out[i] = o
     bad, skipped, nontrivial, kinds, stages_hit = [], 0, 0, {}, {}
     known_hit = {}
     for line, label, o in zip(lines, labels, out):
@@ -133,7 +141,7 @@ def run(ctx):
         rule="single corruptions: every reference field × 7 kinds for each sample file (quick: at most 250 (field, kind) pairs per file, "
              "sampled); 2..3 simultaneous random corruptions; generated instances of every block type in 3 (quick) / 12 versions; four "
              "stages per case, each in its own process with a 5 s watchdog",
-        corruption_kinds=kinds, load_refused=stages_hit.get("load-refused", 0), skipped=skipped, oracle_failures=len(bad), traversal_graphs=len(tl), traversal_mismatches=len(corr),
+        corruption_kinds=kinds, load_refused=stages_hit.get("load-refused", 0), skipped=skipped, rerun_after_first_failure=len(redo), oracle_failures=len(bad), traversal_graphs=len(tl), traversal_mismatches=len(corr),
         failure_classes=sorted({f"{b[3]}: {b[2][:90]}" for b in bad})[:40],
         samples=[f"{l} -> {o[:200]}" for l, o in list(zip(lines, out))[:: max(1, len(lines) // 5)]][:5])
     ctx.allbad = bad
